@@ -9,6 +9,10 @@ type FieldInherit func(current, desired client.Object)
 
 func mergeAnnotations(desiredAnnotations, currentAnnotations map[string]string) map[string]string {
 	if desiredAnnotations == nil {
+		if len(currentAnnotations) == 0 {
+			// nothing to merge: keep the annotations absent, as they are on the stored object
+			return nil
+		}
 		desiredAnnotations = map[string]string{}
 	}
 	for currentAnnotationKey, currentAnnotationValue := range currentAnnotations {
